@@ -118,18 +118,22 @@ mutual
                 have h2 := this.2; simp only [PendOk] at h2 ⊢; cases hw : w <;> simp_all⟩
             | crash g3 => trivial
           | true =>
-            simp only [ite_true]
-            cases src with
-            | ready r =>
-              simp only [enterHere, Dispatch.asyncEntry, ite_true]
-              exact asyncFinish_log cfg _ own k true ctx _
-                (runSteps_log cfg steps _ true ctx r .inl _ (logOk_acct hl2 (by simp) (by simp) (by simp)))
-            | contract p f => simp [enterHere, Dispatch.asyncEntry, LogOut]
-            | contractOn e p f => simp [enterHere, Dispatch.asyncEntry, LogOut]
-            | unit => simp [enterHere, Dispatch.asyncEntry, LogOut]
-            | promiseFn e p f => simp [enterHere, Dispatch.asyncEntry, LogOut]
-            | sharedReady r => simp [enterHere, Dispatch.asyncEntry, LogOut]
-            | sharedContract p f => simp [enterHere, Dispatch.asyncEntry, LogOut]
+            simp only [↓reduceIte]
+            rw [enterHere_eq]
+            have hl3 : LogOk cfg (asyncRetAcct (stepType mode hd)
+                ((G.allocCore (g.invoke id ctx via) (srcCores src + steps.length)).allocFunctor
+                  (srcFunctors src + steps.length))) [] := logOk_acct hl2 (by simp) (by simp) (by simp)
+            have hsrc := startSrc_log cfg src ctx _ hl3
+            cases hst : startSrc cfg src ctx (asyncRetAcct (stepType mode hd)
+              ((G.allocCore (g.invoke id ctx via) (srcCores src + steps.length)).allocFunctor (srcFunctors src + steps.length))) with
+            | go r0 inh0 c0 g3 =>
+              rw [hst] at hsrc
+              simp only []
+              exact asyncFinish_log cfg _ own k true ctx _ (runSteps_log cfg steps _ true c0 r0 inh0 g3 hsrc)
+            | wait w inh0 g3 =>
+              rw [hst] at hsrc
+              exact hsrc steps [⟨stepType mode hd, own, k⟩]
+            | crash g3 => trivial
       | doneException => exact logOk_acct hl (by simp) (by simp) (by simp)
       | doneError => exact logOk_acct hl (by simp) (by simp) (by simp)
       | doneResult => exact logOk_acct hl (by simp) (by simp) (by simp)
